@@ -2,7 +2,10 @@ package walletsim
 
 import (
 	"fmt"
+	"github.com/btcsuite/btcd/btcec/v2"
+	"github.com/btcsuite/btcwallet/waddrmgr"
 	"sort"
+	"verifsim/core"
 
 	"github.com/btcsuite/btcd/btcutil"
 	"github.com/btcsuite/btcd/chaincfg/chainhash"
@@ -73,7 +76,9 @@ func (x *world) checkC13w(label string) {
 			// workload pays issued addresses only) is a credited output.
 			if !x.hadCrash && uncredited == "" {
 				for oi, o := range d.MsgTx.TxOut {
-					if _, own := x.byScript[string(o.PkScript)]; !own {
+					_, own := x.byScript[string(o.PkScript)]
+					ki, ownKey := x.importedKeyScripts[string(o.PkScript)]
+					if !own && !ownKey {
 						continue
 					}
 					nOwn++
@@ -84,7 +89,13 @@ func (x *world) checkC13w(label string) {
 						}
 					}
 					if !listed {
-						uncredited = fmt.Sprintf("output %d of %s (%d sat) pays %s, an address the wallet issued, and is not among the transaction's credits %v", oi, short(ids[i]), o.Value, x.issuedAddrs[x.byScript[string(o.PkScript)]].addr, d.Credits)
+						var to btcutil.Address
+						if ownKey {
+							to = x.importedKeys[ki]
+						} else {
+							to = x.issuedAddrs[x.byScript[string(o.PkScript)]].addr
+						}
+						uncredited = fmt.Sprintf("output %d of %s (%d sat) pays %s, an address the wallet issued or imported the key of, and is not among the transaction's credits %v", oi, short(ids[i]), o.Value, to, d.Credits)
 					}
 				}
 			}
@@ -238,4 +249,35 @@ func (x *world) checkC13w(label string) {
 			}
 		}
 	}
+}
+
+// importkey: a single private key imported through Wallet.ImportPrivateKey
+// (no rescan, start block = the wallet's current tip, so that the birthday is
+// left alone); later payments to its address are the wallet's.
+func (rs *runState) importkey(step int, op core.Op) {
+	x := rs.x
+	sc := []waddrmgr.KeyScope{waddrmgr.KeyScopeBIP0044, waddrmgr.KeyScopeBIP0049Plus, waddrmgr.KeyScopeBIP0084}[int(uint64(op.Arg(0))%3)]
+	raw := core.NewRand(core.Mix(x.p.Seed, 0x1319+uint64(len(x.importedKeys)))).Bytes(32)
+	priv, _ := btcec.PrivKeyFromBytes(raw)
+	wif, err := btcutil.NewWIF(priv, x.params, true)
+	if err != nil {
+		return
+	}
+	st := x.w.Manager.SyncedTo()
+	as, err := x.w.ImportPrivateKey(sc, wif, &st, false)
+	x.env.Count("op.ImportPrivateKey")
+	x.env.Eff()
+	x.env.Logf("%d importkey scope=%d -> %s err=%v", step, sc.Purpose, as, err)
+	if err != nil {
+		return
+	}
+	addr, err := btcutil.DecodeAddress(as, x.params)
+	if err != nil {
+		return
+	}
+	if x.importedKeyScripts == nil {
+		x.importedKeyScripts = map[string]int{}
+	}
+	x.importedKeyScripts[string(payTo(addr, 0).PkScript)] = len(x.importedKeys)
+	x.importedKeys = append(x.importedKeys, addr)
 }
